@@ -1,5 +1,6 @@
 """Property -> rules.  The explanation/assumption texts end up in the evidence files."""
 from .rules import dtype, evalnodes, executor, aggregates, eqfaith, compiler_rules as cr
+from .rules import cursor_rules as cu, library_rules as lib, state_rules as st
 
 TRUSTED_ABSINT = [
     "Python/library semantics of operators, attributes, methods and whitelisted callables are obtained by applying "
@@ -35,7 +36,7 @@ PROPS = {
             "resolution for nested expressions."),
         'assumptions': TRUSTED_STRUCT + TRUSTED_ABSINT[3:],
         'quick': [evalnodes.rule_nullstrict, evalnodes.rule_divguard, evalnodes.rule_promote, evalnodes.rule_opsem,
-                  evalnodes.rule_3vl, executor.rule_rowloop, executor.rule_fromand],
+                  evalnodes.rule_3vl, executor.rule_rowloop, executor.rule_fromand, cr.rule_implicitcast],
         'thorough': [],
     },
     'C02': {
@@ -86,7 +87,8 @@ PROPS = {
             "(R-RESOLVE-SAFE). Decides type conformance of declarations vs. implementations for all overloads; "
             "does not decide values of dtype `object` nor conformance of ledger data to beancount's annotations."),
         'assumptions': TRUSTED_ABSINT,
-        'quick': [dtype.rule_dtype, dtype.rule_typesafe, dtype.rule_renderable, cr.rule_opresolve],
+        'quick': [dtype.rule_dtype, dtype.rule_typesafe, dtype.rule_renderable, cr.rule_opresolve, cr.rule_coalesce,
+                  cr.rule_implicitcast],
         'thorough': [],
     },
     'C05': {
@@ -107,7 +109,7 @@ PROPS = {
         'assumptions': TRUSTED_STRUCT + TRUSTED_ABSINT[:1],
         'quick': [cr.rule_raise, cr.rule_guards, cr.rule_targetchk, cr.rule_guard_typesafe, cr.rule_idxbound,
                   cr.rule_opresolve, cr.rule_partial, cr.rule_foldsafe, cr.rule_exhaustive, cr.rule_exctree,
-                  eqfaith.rule_eqfaith],
+                  eqfaith.rule_eqfaith, cr.rule_coalesce, cr.rule_implicitcast],
         'thorough': [],
     },
     'C07': {
@@ -123,6 +125,114 @@ PROPS = {
             "the slice equals the expression's text for arbitrary spacing (positions come from TatSu at run time)."),
         'assumptions': TRUSTED_STRUCT,
         'quick': [cr.rule_hidden, cr.rule_visfilter, cr.rule_wildcard, cr.rule_nameslice, executor.rule_pipeline],
+        'thorough': [],
+    },
+    'C08': {
+        'level': 'other',
+        'explanation': (
+            "Static necessary conditions of subquery composition: the compiler state that a FROM clause overwrites "
+            "(the current table) is saved on entry to and restored on every exit from the compilation of a SELECT, so "
+            "a nested SELECT cannot change the table of the enclosing one (R-REENTRANT); subquery columns are numbered "
+            "among the visible inner targets, read row[i], carry the inner dtype and the rows come from executing "
+            "that very subquery (R-VISFILTER); two different IN-subqueries do not compare equal (R-EQFAITH); the "
+            "single-column guard exists (R-GUARDS) and the IN node is NULL-propagating (R-NULLSTRICT). Does not decide "
+            "equality of nested and materialised results in general."),
+        'assumptions': TRUSTED_STRUCT,
+        'quick': [st.rule_reentrant, cr.rule_visfilter, eqfaith.rule_eqfaith, cr.rule_guards, evalnodes.rule_nullstrict],
+        'thorough': [],
+    },
+    'C09': {
+        'level': 'other',
+        'explanation': (
+            "History independence as an effect property: a whole-package write census classifies the receiver of every "
+            "attribute/item store, mutator call, setattr, global rebinding and memoising decorator in code that runs "
+            "while a statement is compiled or executed; no write may reach an object owned by the caller (statement "
+            "AST, parameters, ledger entries/options: R-INPUTMUT) nor an object created at import time or held by the "
+            "connection (R-SHARED). Constant folding only behind all-constant operands and, for functions, behind "
+            "purity, with purity = neither row nor context passed and no global/clock reads (R-FOLDPURE); positional "
+            "placeholders numbered in textual order and read back from where the numbering is kept (R-PLACEHOLDER). "
+            "Does not decide value equality of folded and unfolded evaluation."),
+        'assumptions': TRUSTED_STRUCT + [
+            "receiver lifetimes: instances of a class are IMPORT/CONNECTION/EXECUTION objects according to where the class is "
+            "instantiated; attributes named entries/options/entry/posting/postings/meta/price_map hold caller-owned ledger data; "
+            "parameters named node/query/statement/... in the compiler and cursor are caller-owned",
+            "TatSu, beancount and dateutil internals perform no shared writes (summarised, not analysed)"],
+        'quick': [st.rule_inputmut, st.rule_shared, st.rule_foldpure, st.rule_placeholder],
+        'thorough': [],
+    },
+    'C10': {
+        'level': 'other',
+        'explanation': (
+            "The four row-delivering methods of the cursor are executed symbolically on an opaque buffer: what is handed "
+            "out, what is kept and how far the position counter moves are terms that must satisfy the protocol "
+            "(fetchone: B[0] / B[1:] / +1; fetchmany: B[:n] / B[n:] / +len(B[:n]); fetchall: B / [] / +len(B); iteration "
+            "delegates to a fetch), plus the not-executed and exhausted cases (R-FETCHSIB); execute() resets every piece "
+            "of cursor state (R-RESET); rowcount reads only state written by __init__ and execute and is -1 on a fresh "
+            "cursor (R-ROWCOUNT); description entries are 7-sequences of the DB-API fields (R-COLUMN7); module constants, "
+            "required methods (R-MODCONST) and the exception tree (R-EXCTREE). Does not decide Python's slice arithmetic."),
+        'assumptions': TRUSTED_STRUCT,
+        'quick': [cu.rule_fetchsib, cu.rule_reset, cu.rule_rowcount, cu.rule_column7, cu.rule_modconst, cr.rule_exctree],
+        'thorough': [],
+    },
+    'C12': {
+        'level': 'other',
+        'explanation': (
+            "Decides the running-balance half and the accumulation discipline of the sum half: the accessor that updates "
+            "the row context's running inventory does so exactly once per row, guarded by state kept in the row context "
+            "itself and keyed by the row id (executed over the three guard states), returns a copy, has no process-wide "
+            "memo, and the row generators bump the row id once per yielded row (R-ONCEPERROW); no shared state "
+            "(R-SHARED); the five sum aggregators skip NULL, accumulate with the mutator matching their operand type "
+            "into a fresh per-group zero (R-AGGCLASS). NOT decided (outside static reach): that Inventory.reduce / "
+            "add_position / convert.* form a homomorphism - beancount's arithmetic over run-time lots and prices."),
+        'assumptions': TRUSTED_STRUCT,
+        'quick': [st.rule_onceperrow, st.rule_shared, aggregates.rule_aggclass],
+        'thorough': [],
+    },
+    'C17': {
+        'level': 'other',
+        'explanation': (
+            "The three amount-like converter families (Amount, Position, Inventory) are cross-checked as sibling "
+            "implementations of one interface: column name template, frequency ordering of the currency census, decimal "
+            "dtype, quantisation iff a formatter is given (R-SIBLINGS: the deviant sibling is reported, plus the absolute "
+            "requirements of the statement); every dereference of a result cell is dominated by a NULL test, by abstract "
+            "interpretation with cells typed T|NULL (R-NONEFLOW); non-amount columns are copied by an identity converter "
+            "bound to the same index/name/dtype and rows are produced one per input row with converters in column order "
+            "(R-IDENTITY). Does not decide that get_currency_units sums lots nor numeric equality after quantisation."),
+        'assumptions': TRUSTED_STRUCT + TRUSTED_ABSINT[:1],
+        'quick': [lib.rule_siblings, lib.rule_numberify_null, lib.rule_identity],
+        'thorough': [],
+    },
+    'C18': {
+        'level': 'other',
+        'explanation': (
+            "Decides ONE clause of the property: type casts (bool, int, decimal, str, date; 16 overloads) return the "
+            "converted value or NULL and never raise - abstract interpretation of each cast body for every operand type "
+            "it admits (untyped operands range over all announceable dtypes), with edge samples (NaN, Infinity, huge "
+            "ints, malformed strings) for the conversion primitives; every exception a primitive can raise must be "
+            "caught by the enclosing try (R-CASTTOTAL). NOT decided (equalities over run-time values, outside static "
+            "reach): the calendar laws, account-name decomposition, string slicing/regex definitions and decimal "
+            "arithmetic; an off-by-one in such an expression has the same shape as the correct expression."),
+        'assumptions': TRUSTED_ABSINT[:1],
+        'quick': [lib.rule_casttotal],
+        'thorough': [],
+    },
+    'C20': {
+        'level': 'other',
+        'explanation': (
+            "Two executions interfere only through state they share. The write census (see C09) enumerates every write "
+            "performed by code reachable while a statement is parsed, compiled or executed - all evaluator __call__s, "
+            "registered functions, column accessors, table iterators, the compiler, executor and cursor - and "
+            "classifies its receiver; the set of writes to objects that outlive an execution (IMPORT: registries, class "
+            "attributes, column instances, decorator closures, memo caches; CONNECTION: the connection and its tables) "
+            "must be empty (R-SHARED); FROM-clause qualifiers are applied to a copy of the table (R-TABLECOPY); the "
+            "balance guard lives in the per-scan row context (R-ONCEPERROW); threadsafety is a valid DB-API level "
+            "(R-MODCONST). With nothing shared no interleaving needs exploring. Sharing a cursor between threads is "
+            "outside DB-API level 2 and outside the claim."),
+        'assumptions': TRUSTED_STRUCT + [
+            "the call graph is over-approximated: every function of the non-front-end modules that is not import-only is "
+            "treated as execution-reachable",
+            "TatSu, beancount and dateutil internals perform no shared writes (summarised, not analysed)"],
+        'quick': [st.rule_shared, st.rule_tablecopy, st.rule_onceperrow, cu.rule_modconst],
         'thorough': [],
     },
 }
